@@ -129,6 +129,25 @@ theorem bad_value_becomes_null (c : LasContent) (l : LasLayout) (hwf : wfContent
   apply List.map_congr_left; intro d _
   cases d <;> rfl
 
+theorem numEq_self (a : Int × Int) : numEq a a = true := by simp [numEq]
+
+/-- **masking is exact**: in the array returned for a printed content the X axis is never masked, and a cell of another
+channel is masked exactly when the token written is not a number or the number written EQUALS the declared NULL
+(as exact decimals) — a value merely close to NULL is data. -/
+theorem mask_exact (c : LasContent) (l : LasLayout) (hwf : wfContent c = true) :
+    ∃ f a, parse (print c l) = .ok f ∧ f.array = some a ∧
+      maskOf a = c.frames.map (fun row => row.zipIdx.map (fun p => p.2 != 0 && (match p.1 with
+        | .num m e => numEq (m, e) (declaredNull c)
+        | .bad _ => true))) := by
+  refine ⟨toFile c, _, parse_print c l hwf, rfl, ?_⟩
+  simp only [maskOf, List.map_map]
+  apply List.map_congr_left; intro row _
+  simp only [Function.comp, List.zipIdx_map, List.map_map]
+  apply List.map_congr_left; intro p _
+  cases hp : p.1 with
+  | num m e => simp [Function.comp, hp, expectCell, cellKey]
+  | bad s => simp [Function.comp, hp, expectCell, cellKey, numEq_self]
+
 /-- `_convert_value`: a token outside the numeric grammar becomes null, a printed number is read back exactly -/
 theorem convert_value_spec (tok : Str) :
     (parseFloat? tok = none → convertValue tok = .null) ∧
@@ -199,6 +218,10 @@ def exContent1 (wrap : Bool) : LasContent :=
 
 example : wfContent (exContent1 true) = true ∧ wfContent (exContent1 false) = true ∧
     declaredNull (exContent1 true) = (-9999, 0) ∧ wrapOf (exContent1 true) = true := by decide +kernel
+/-- -999.2575 and -999.245 are data next to NULL = -999.25: only the cell equal to NULL and the bad token are masked -/
+example : maskOf ⟨[], (-99925, -2), [[.num 1 0, .num (-9992575) (-4), .num (-99925) (-2), .num (-999250) (-3)],
+                                      [.num 2 0, .num (-999245) (-3), .null, .num (-99925) (-2)]]⟩ =
+    [[false, false, true, true], [false, false, true, true]] := by decide +kernel
 example : wfContent (exContent false) = true := by decide +kernel
 example : wfContent (exContent true) = true := by decide +kernel
 example : wrapOf (exContent true) = true ∧ wrapOf (exContent false) = false := by decide +kernel
